@@ -300,7 +300,7 @@ Example C18_nep2_example :
   toy_decrypt fold_fi (toy_encrypt no_fold toy_key pass_lig) pass_lig = None /\
   toy_decrypt no_fold (toy_encrypt fold_fi toy_key pass_lig) pass_lig = None /\
   toy_decrypt no_fold (toy_encrypt fold_fi toy_key pass_lig) pass_fi = Some toy_key.
-Proof. pose proof nep2_toy_examples as (A & B & C & D & E & _). repeat split; assumption. Qed.
+Proof. pose proof nep2_toy_examples as (A & B & C & D & E & _). exact (conj A (conj B (conj C (conj D E)))). Qed.
 
 (* ---------- the integer emitter (emit.BigInt / Int, behind Any / Array / StackItem, the builders and the compiler) ---------- *)
 (* whatever is written for an integer of the VM range is one instruction that, decoded by the VM model (VM/Decode.v) with
